@@ -38,7 +38,19 @@ def verify(pack, contract, externals=None, replay=None, witnesses=None, timeout_
         name = contract.oname + '/in-subset'
         pack.add({'name': name, 'verdict': 'unknown', 'backend': 'symex', 'time_s': time.time() - t0, 'model': None,
                   'smt2': None, 'meta': {}, 'note': 'unsupported: %s' % e})
-        pack.undecided_obl(name, 'function left the verified subset: %s' % e)
+        conf = None
+        if replay is not None:
+            # no verification conditions could be generated: the native replay harness of this contract may still exhibit
+            # a failing input on the real code (only a confirmed one is reported as a violation)
+            try:
+                conf = replay(name, {}, {})
+            except Exception as e2:      # noqa
+                conf = {'confirmed': False, 'error': repr(e2), 'trace': traceback.format_exc()[-600:]}
+        if conf and conf.get('confirmed'):
+            pack.violation(name, {'solver': 'none', 'solver_output': 'function left the verified subset: %s' % e,
+                                  'function': contract.qualname, 'file': contract.file, 'native': conf})
+        else:
+            pack.undecided_obl(name, 'function left the verified subset: %s' % e)
         pack.add_function(contract.qualname, contract.file, obligations=0, dropped=DROPS)
         return None
     if not obls:
